@@ -106,6 +106,8 @@ var mandatory = map[string]bool{
 	"store.open":          true,
 	"mut.op":              true,
 	"mut.intxn":           true,
+	"query.start":         true,
+	"query.next":          true,
 }
 
 // New creates a simulation driven by the tape.
